@@ -1149,8 +1149,14 @@ func (env *SpecEnv) havocTarget(st *State, e ast.Expr, where string) {
 func (c *ExecCtx) newEnv(binds map[string]Val, pos token.Pos) *SpecEnv {
 	b := map[string]Val{}
 	root := c
+	for root.binds == nil && root.parent != nil && !root.inlinedFunc {
+		root = root.parent
+	}
 	for k, v := range root.binds {
 		b[k] = v
+	}
+	if c.paramObjs == nil {
+		c.paramObjs, c.headerNames = root.paramObjs, root.headerNames
 	}
 	for _, lb := range c.loopBinds {
 		for k, v := range lb {
@@ -1160,7 +1166,7 @@ func (c *ExecCtx) newEnv(binds map[string]Val, pos token.Pos) *SpecEnv {
 	for k, v := range binds {
 		b[k] = v
 	}
-	env := &SpecEnv{c: c, fs: c.spec, binds: b, pos: pos}
+	env := &SpecEnv{c: c, fs: c.ownSpecOr(), binds: b, pos: pos}
 	if c.pkg != nil && pos != token.NoPos {
 		env.scope = c.pkg.Types.Scope().Innermost(pos)
 	}
@@ -1214,11 +1220,27 @@ func (c *ExecCtx) rootSpecCtx() *ExecCtx {
 	return r
 }
 
+// ownSpec: the contract whose ghost anchors apply to code executed in c: the
+// unit's own contract, also inside its func literals inlined at their call
+// sites, but not inside bodies of other functions inlined here.
+func (c *ExecCtx) ownSpec() *FuncSpec {
+	for x := c; x != nil; x = x.parent {
+		if x.inlinedFunc {
+			return nil
+		}
+		if x.spec != nil {
+			return x.spec
+		}
+	}
+	return nil
+}
+
 func (c *ExecCtx) runGhostAnchors(st *State, s ast.Stmt, when string) {
-	if c.spec == nil || len(c.spec.Ghosts) == 0 || c.depth > 0 {
+	spec := c.ownSpec()
+	if spec == nil || len(spec.Ghosts) == 0 {
 		return
 	}
-	for _, g := range c.spec.Ghosts {
+	for _, g := range spec.Ghosts {
 		an := g.Anchor
 		switch {
 		case strings.HasPrefix(an, "append(") && when == "after":
@@ -1266,13 +1288,13 @@ func (c *ExecCtx) runNamedAnchorWith(st *State, anchor string, pos token.Pos, bi
 }
 
 func (c *ExecCtx) runCallAnchors(st *State, fn *types.Func, call *ast.CallExpr, res []Val) {
-	root := c
-	if root.spec == nil || len(root.spec.Ghosts) == 0 || c.depth > 0 {
+	spec := c.ownSpec()
+	if spec == nil || len(spec.Ghosts) == 0 {
 		return
 	}
 	name := fn.Name()
 	ord := c.callOrdinal(call, name)
-	for _, g := range root.spec.Ghosts {
+	for _, g := range spec.Ghosts {
 		if g.Anchor == "call("+name+")" || g.Anchor == "call("+exprString(call.Fun)+")" || g.Anchor == fmt.Sprintf("call(%s)#%d", name, ord) {
 			g.used = true
 			binds := map[string]Val{}
@@ -1419,10 +1441,14 @@ var _ = constant.MakeBool
 // in the enclosing function body (source order).
 func (c *ExecCtx) callOrdinal(call *ast.CallExpr, name string) int {
 	var body ast.Node
-	if c.lit != nil {
-		body = c.lit.Body
-	} else if c.fn != nil {
-		body = c.fn.Decl.Body
+	root := c
+	for root.parent != nil && root.spec == nil {
+		root = root.parent
+	}
+	if root.lit != nil && root.parent == nil {
+		body = root.lit.Body
+	} else if root.fn != nil {
+		body = root.fn.Decl.Body
 	}
 	if body == nil {
 		return -1
@@ -1448,12 +1474,13 @@ func (c *ExecCtx) callOrdinal(call *ast.CallExpr, name string) int {
 
 
 func (c *ExecCtx) runBeforeCallAnchors(st *State, fn *types.Func, call *ast.CallExpr, recv *Val, args []Val) {
-	if c.spec == nil || len(c.spec.Ghosts) == 0 || c.depth > 0 {
+	spec := c.ownSpec()
+	if spec == nil || len(spec.Ghosts) == 0 {
 		return
 	}
 	name := fn.Name()
 	ord := -2
-	for _, g := range c.spec.Ghosts {
+	for _, g := range spec.Ghosts {
 		if !strings.HasPrefix(g.Anchor, "before call(") {
 			continue
 		}
@@ -1540,4 +1567,12 @@ func (env *SpecEnv) specLockKey(st, old *State, e ast.Expr) (string, *Term) {
 		return env.specLockKey(st, old, x.X)
 	}
 	return "?" + exprString(e), nil
+}
+
+
+func (c *ExecCtx) ownSpecOr() *FuncSpec {
+	if c.spec != nil {
+		return c.spec
+	}
+	return c.ownSpec()
 }
